@@ -3,9 +3,9 @@ configurations are recorded in the evidence files)."""
 import fwcheck
 
 
-def C(family, alphabet, calls, batch, steps="one", invs=(), timeout=1500):
+def C(family, alphabet, calls, batch, steps="one", invs=(), timeout=1500, simulate=0):
     return dict(family=family, alphabet=alphabet, calls=calls, batch=batch, steps=steps,
-                invs=list(invs), timeout=timeout)
+                invs=list(invs), timeout=timeout, simulate=simulate)
 
 
 FW_ASSUME = [
@@ -43,7 +43,8 @@ FW_PLANS = {
             workers=14,
             mc=[C("pad-quick", "pad", 6, 1, "one", ["Inv_C02"]),
                 C("pad-thorough", "pad", 4, 1, "one", ["Inv_C02"])],
-            gen=[C("pad-quick", "pad", 4, 1, "one")],
+            gen=[C("pad-quick", "pad", 4, 1, "one"),
+                 C("pad-thorough", "pad", 14, 1, "one", ["Inv_C02"], simulate=800)],
             rand=dict(scenarios=3000, calls=60))),
     "C03": dict(
         verdicts={"C03"},
@@ -56,7 +57,8 @@ FW_PLANS = {
             workers=14,
             mc=[C("block-quick", "block", 6, 1, "wide", ["Inv_C03"]),
                 C("block-thorough", "block", 4, 1, "mixed", ["Inv_C03"])],
-            gen=[C("block-quick", "block", 4, 1, "mixed")],
+            gen=[C("block-quick", "block", 4, 1, "mixed"),
+                 C("block-thorough", "block", 14, 1, "wide", ["Inv_C03"], simulate=800)],
             rand=dict(scenarios=3000, calls=60))),
     "C04": dict(
         verdicts={"C04"},
@@ -80,7 +82,8 @@ FW_PLANS = {
                  C("ctr-quick", "ctr", 1, 3, "one"), C("sig-trio", "sig", 1, 2, "one"),
                  C("sig-quick", "sig", 2, 1, "one"), C("limit-quick", "limit", 3, 1, "one"),
                  C("limit-duo", "limit", 3, 1, "one"), C("sig-duo", "sig", 2, 2, "one"),
-                 C("limit-reenter", "limit", 3, 1, "one"), C("end-quick", "end", 2, 2, "one")],
+                 C("limit-reenter", "limit", 3, 1, "one"), C("end-quick", "end", 2, 2, "one"),
+                 C("core-thorough", "core", 8, 2, "mixed", simulate=60)],
             rand=dict(scenarios=400, calls=30), compose=dict(scenarios=40)),
         thorough=dict(
             workers=14, compose=dict(scenarios=400),
@@ -92,7 +95,13 @@ FW_PLANS = {
                  C("sig-duo", "sig", 2, 2, "one"), C("limit-reenter", "limit", 2, 2, "one"),
                  C("ctr-quick", "ctr", 3, 2, "one"), C("sig-quick", "sig", 2, 2, "one"),
                  C("limit-quick", "limit", 4, 1, "one"), C("pad-quick", "pad", 4, 1, "one"),
-                 C("block-quick", "block", 4, 1, "mixed")],
+                 C("block-quick", "block", 4, 1, "mixed"),
+                 C("core-thorough", "core", 10, 2, "mixed", simulate=1500),
+                 C("ctr-thorough", "ctr", 10, 3, "one", simulate=400),
+                 C("sig-thorough", "sig", 8, 2, "one", simulate=400),
+                 C("limit-thorough", "limit", 10, 2, "one", simulate=400),
+                 C("pad-thorough", "pad", 12, 1, "one", simulate=400),
+                 C("block-thorough", "block", 12, 1, "wide", simulate=400)],
             rand=dict(scenarios=5000, calls=60))),
     "C07": dict(
         verdicts={"C07"},
@@ -107,7 +116,8 @@ FW_PLANS = {
             mc=[C("limit-quick", "limit", 3, 2, "one", ["Inv_C07"]),
                 C("limit-thorough", "limit", 4, 1, "one", ["Inv_C07"]), C("limit-reenter", "limit", 4, 1, "one", ["Inv_C07"])],
             gen=[C("limit-quick", "limit", 4, 1, "one"), C("limit-reenter", "limit", 2, 2, "one"),
-                 C("limit-duo", "limit", 3, 1, "one")],
+                 C("limit-duo", "limit", 3, 1, "one"),
+                 C("limit-thorough", "limit", 12, 2, "one", ["Inv_C07"], simulate=800)],
             rand=dict(scenarios=3000, calls=60))),
     "C08": dict(
         verdicts={"C08"},
@@ -120,7 +130,8 @@ FW_PLANS = {
         thorough=dict(
             workers=14,
             mc=[C("ctr-thorough", "ctr", 3, 2, "one", ["Inv_C08"]), C("ctr-thorough", "ctr", 5, 1, "one", ["Inv_C08"])],
-            gen=[C("ctr-quick", "ctr", 3, 2, "one"), C("ctr-quick", "ctr", 2, 3, "one")],
+            gen=[C("ctr-quick", "ctr", 3, 2, "one"), C("ctr-quick", "ctr", 2, 3, "one"),
+                 C("ctr-thorough", "ctr", 12, 3, "one", ["Inv_C08"], simulate=800)],
             rand=dict(scenarios=3000, calls=60))),
     "C09": dict(
         verdicts={"C09"},
@@ -132,7 +143,8 @@ FW_PLANS = {
         thorough=dict(
             workers=14,
             mc=[C("sig-thorough", "sig", 2, 2, "one", ["Inv_C09"]), C("sig-quick", "sig", 3, 1, "one", ["Inv_C09"])],
-            gen=[C("sig-quick", "sig", 2, 2, "one"), C("sig-trio", "sig", 2, 1, "one")],
+            gen=[C("sig-quick", "sig", 2, 2, "one"), C("sig-trio", "sig", 2, 1, "one"),
+                 C("sig-thorough", "sig", 10, 2, "one", ["Inv_C09"], simulate=800)],
             rand=dict(scenarios=3000, calls=60))),
 }
 
